@@ -54,11 +54,14 @@ pub enum Term {
     MaxBy,
     MinByKey,
     MaxByKey,
+    /// `min()` / `max()` over items whose `Ord` has ties between distinguishable elements (tok::TieTok)
+    MinTie,
+    MaxTie,
     /// build the computation, never run it
     Build,
 }
 
-pub const ALL_TERMS: [(Term, &str); 26] = [
+pub const ALL_TERMS: [(Term, &str); 28] = [
     (Term::CollectVec, "collect_vec"),
     (Term::Collect, "collect"),
     (Term::CollectX, "collect_x"),
@@ -84,6 +87,8 @@ pub const ALL_TERMS: [(Term, &str); 26] = [
     (Term::MaxBy, "max_by"),
     (Term::MinByKey, "min_by_key"),
     (Term::MaxByKey, "max_by_key"),
+    (Term::MinTie, "min_tie"),
+    (Term::MaxTie, "max_tie"),
     (Term::Build, "build"),
 ];
 
@@ -106,11 +111,11 @@ impl Term {
     pub fn is_reduce_family(self) -> bool {
         matches!(
             self,
-            Term::Reduce | Term::Fold | Term::Sum | Term::Min | Term::Max | Term::MinBy | Term::MaxBy | Term::MinByKey | Term::MaxByKey
+            Term::Reduce | Term::Fold | Term::Sum | Term::Min | Term::Max | Term::MinBy | Term::MaxBy | Term::MinByKey | Term::MaxByKey | Term::MinTie | Term::MaxTie
         )
     }
     pub fn needs_tok(self) -> bool {
-        matches!(self, Term::Fold | Term::Sum | Term::Min | Term::Max | Term::MinBy | Term::MaxBy | Term::MinByKey | Term::MaxByKey)
+        matches!(self, Term::Fold | Term::Sum | Term::Min | Term::Max | Term::MinBy | Term::MaxBy | Term::MinByKey | Term::MaxByKey | Term::MinTie | Term::MaxTie)
     }
     pub fn uses_pred(self) -> bool {
         matches!(self, Term::Find | Term::Any | Term::All | Term::FindIdx)
@@ -261,6 +266,8 @@ impl VisitTok for TermV {
             Term::MaxBy => r(q.max_by(cl::cmp())),
             Term::MinByKey => r(q.min_by_key(cl::key())),
             Term::MaxByKey => r(q.max_by_key(cl::key())),
+            Term::MinTie => r(q.map(crate::tok::TieTok).min().map(|t| t.0)),
+            Term::MaxTie => r(q.map(crate::tok::TieTok).max().map(|t| t.0)),
             _ => TermResult::NA,
         }
     }
